@@ -11,6 +11,7 @@ import DM.Drv.Api
 import DM.Drv.Prune
 import DM.Drv.EncRun
 import DM.Drv.Plan
+import DM.Props.C04
 open DM.Drv
 
 def dispatch (args : List String) : String :=
@@ -63,11 +64,15 @@ def main (args : List String) : IO Unit := do
   match args with
   | ["gen-c04", seed, n] =>
     -- generator mode: legal streams from the reference builder, self-checked with the reference decoder
-    for (cw, bytes) in DM.Spec.Build.genStreams seed.toNat! n.toNat! do
+    -- fourth field: does the script satisfy the hypothesis of `decoder_complete` (C04)?
+    for s in DM.Spec.Build.genScripts seed.toNat! n.toNat! do
+      let cw := DM.Spec.Build.build s
+      let bytes := DM.Spec.Build.meaning s
       let self := match DM.Spec.Stream.decode cw with
         | .ok d => if d.bytes == bytes then "ok" else "spec-disagrees"
         | .error e => "spec-rejects:" ++ e.replace " " "_"
-      hout.putStrLn s!"{hex cw} {hex bytes} {self}"
+      let wf := if decide (DM.Props.C04.WFScript s) then "wf" else "nwf"
+      hout.putStrLn s!"{hex cw} {hex bytes} {self} {wf}"
   | _ =>
     let hin ← IO.getStdin
     loop hin hout
